@@ -40,14 +40,24 @@ def replay(d):
 
 
 def check(run):
+    run.level = "other"
     run.deductive(PC.MODULES)
     rnd = random.Random(run.seed)
     pool = list(P.CRAFTED) + P.validation_reactions(50 if run.tier == "quick" else 800, seed=run.seed)
     fails, cases, distinct, samples = [], 0, set(), []
     configs = [(None, 0), (7, 0), (1, 0), (None, 0.9), (5, 0.5)] if run.tier == "quick" else \
         [(None, 0), (7, 0), (1, 0), (3, 0), (None, 0.9), (5, 0.5), (11, 0.99), (None, 1.0)]
+    # thresholds equal to reported confidences (and their neighbours) and the extremes
+    import math
+    probe = P.rebalance(pool[:40])
+    cs = sorted({r["confidence"] for r in probe if r.get("solved_by") == "mcs-based" and r.get("confidence") is not None})
+    for c in cs[:4 if run.tier == "quick" else 30]:
+        configs += [(None, c), (None, math.nextafter(c, -1.0))]
+    configs += [(None, 1.0), (4, 1.0)]
     for bs, t in configs:
         xs = rnd.sample(pool, min(len(pool), 25 if run.tier == "quick" else 200)) if bs != 1 else rnd.sample(pool, 8)
+        if t not in (0, 0.5, 0.9, 0.99):
+            xs = pool[:40]
         st = {}
         rows = P.rebalance(xs, stats=st, batch_size=bs, confidence_threshold=t)
         cases += len(xs)
